@@ -130,6 +130,15 @@ func dmHandler() {
 		wpid, werr := daemon.Launch(dmWorker)
 		dmWriteAtomic(filepath.Join(dir, strconv.Itoa(pid)+".nested"), fmt.Sprintf("%d %v", wpid, werr))
 	}
+	// a daemon that logs: once the launcher is gone it writes to its standard error and output (a
+	// daemon whose descriptors 1/2 lead to the launcher would be killed by SIGPIPE here)
+	for i := 0; i < 200 && os.Getppid() == ppid; i++ {
+		time.Sleep(5 * time.Millisecond)
+	}
+	time.Sleep(10 * time.Millisecond)
+	_, e2 := fmt.Fprintln(os.Stderr, "daemon", pid, "log line")
+	_, e1 := fmt.Fprintln(os.Stdout, "daemon", pid, "output line")
+	dmWriteAtomic(filepath.Join(dir, strconv.Itoa(pid)+".logged"), fmt.Sprintf("%v %v", e1 == nil, e2 == nil))
 	time.Sleep(time.Duration(life) * time.Millisecond)
 }
 
@@ -380,6 +389,10 @@ func (d *dmRun) judge(c dmCase, dir string, r dmLaunchResult, callerPid int, cal
 	time.Sleep(20 * time.Millisecond)
 	if !dmAlive(r.pid) {
 		fail("daemon-dead", fmt.Sprintf("daemon %d died within 20 ms after Launch returned (caller exited: %v)", r.pid, callerExited))
+	}
+	// ... and it survives using its standard error / output once the launcher has gone
+	if _, ok := dmWaitFile(filepath.Join(dir, strconv.Itoa(r.pid)+".logged"), 6*time.Second); !ok {
+		fail("daemon-dead", fmt.Sprintf("daemon %d did not get past writing a line to its standard error and output after the launcher exited (alive now: %v)", r.pid, dmAlive(r.pid)))
 	}
 	if c.Paused || c.DelayMs > 0 {
 		s.Nontrivial(fmt.Sprintf("%s/%d/%d", c.Scenario, c.DelayMs, c.Parallel))
